@@ -281,3 +281,40 @@ reg("C16", "E5-schedules",
     "Exactly one writer runs between scheduling points; races inside C extensions (sqlite, hashlib) and on "
     "in-memory structures between points are not modelled. Private workspace events are not points.",
     "DESIGN.md §4 C16")
+
+
+# Coverage added after the registrations above were written (section 4 "As built" of DESIGN.md has the detail).
+ADDENDA = {
+    "C01": "Part 2, every history (no de-duplication): depth 4 over {stage only, stage+transfer} x 2 stores and "
+           "{rename, rewrite} of workspace files with duplicate content; depth 3 over {stage+transfer, damage a "
+           "protected object in place, verifying transfer, rewrite}.",
+    "C02": "Every execution is followed by a second round trip from the same store; with link type copy also "
+           "after an earlier never-transferred staging whose first file was then moved aside and rewritten.",
+    "C03": "Hash-state modes include all-but-the-first / all-but-the-last file known.",
+    "C04": "Expanded requests with files missing on both sides / corrupt; ENOENT upload failures.",
+    "C05": "With a State also atomic same-size same-mtime replacements; in-flight part: a file the checkout "
+           "leaves alone is replaced by uncached bytes before each file-system access of the call, then unused "
+           "links are cleaned up.",
+    "C06": "Twin-algorithm ids (same value) listed before the store's own, a legacy-algorithm local store, "
+           "names differing only in Unicode normalisation form.",
+    "C07": "9 queries (verified adds also with check_exists=False); a two-chunk CRLF text object of a legacy store.",
+    "C08": "Entry variants include an inode-only metadata difference and explicit directories with an empty HashInfo.",
+    "C09": "Unloadable-directory runs with the default raising and with a collecting load-error handler: same outcome.",
+    "C10": "A further relinking checkout to each third link type.",
+    "C11": "Requested ids carry obj_name labels; ENOENT upload failures.",
+    "C12": "Histories also start from a source that lacks a listed file (missing on both sides).",
+    "C13": "31 operations (previous index through write_json/read_json, write_db/read_db), three initial states "
+           "(one with a symlink inside the staged directory).",
+    "C14": "hash_value polled before and between reads.",
+    "C15": "7 scenarios (+ verifying transfer with a corrupt source, index save across two file systems, verifying "
+           "index save); 8 known link-probe signatures.",
+    "C16": "Passes: base, upload staging, hashing pool with chosen completion order, SQL statements as points, "
+           "private-workspace events as points, and a data-read pass (preemption right after every read of a "
+           "workspace file).",
+    "C17": "A directory object with per-file sizes and an empty file; persist trigger (deep load, commit, reopen, "
+           "directory objects removed from storage).",
+    "C18": "Single upload failures also as FileNotFoundError.",
+    "C19": "Public merges run as one session per store (merge must not depend on earlier merges).",
+}
+for _pid, _t in ADDENDA.items():
+    CHECKS[_pid]["text"] = CHECKS[_pid]["text"] + " Added later: " + _t
